@@ -162,6 +162,9 @@ class Parser:
         """Parse a bitproto from given string `s`.
         :param filepath: The filepath information if exist.
         """
+        if not s.endswith("\n"):
+            # A comment on the last line needs its terminating newline.
+            s += "\n"
         with self.lexer.maintain_filepath(filepath):
             with self.maintain_filepath(filepath):
                 return self.parser.parse(s)
